@@ -170,8 +170,11 @@ func init() {
 		"the pre-state is constructed directly (NewMetric + GetDatum + insertion into Store.Metrics) under the stated representation invariant; reflect.DeepEqual on []string is an engine model",
 		"glog is a no-op; pkg/errors.Errorf is an opaque error",
 	}, baseAssumptions...)
-	register(&CheckDef{ID: "C14", Level: "model_checking", Jobs: storeJob, Assumptions: as, Only: []string{"C14."},
-		Outside: []string{"the loader part (CompileAndRun) is covered by separate jobs when registered", "more than two pre-existing metrics"}})
+	register(&CheckDef{ID: "C14", Level: "model_checking", Assumptions: append(append([]string{}, as...), loaderAssumptions...), Only: []string{"C14."},
+		Jobs: func(tier string) []JobDef {
+			return append(append(storeJob(tier), loaderC14Jobs(tier)...), loaderC26Jobs(tier)[1])
+		},
+		Outside: []string{"more than two pre-existing metrics in the store step", "histories of more than 2 (thorough 3) loads", "lines flowing and GC during a reload (C20, C11)"}})
 	register(&CheckDef{ID: "C06", Level: "model_checking", Jobs: storeJob, Assumptions: as, Only: []string{"C06."},
 		Outside: []string{"that each program runs in its own VM with its own line channel (by construction in CompileAndRun, not a solver question)", "more than two pre-existing metrics", "the prog label in the Prometheus exporter (C13)"}})
 }
